@@ -236,6 +236,17 @@ func c15Scenarios(tier mc.Tier) []mc.Scenario {
 			}
 		}
 	}
+	if tier == mc.Quick {
+		// the other four key specs (each has its own hash for the imprint): the valid authorities only
+		for _, media := range []string{envenc.MediaJWS, envenc.MediaCOSE} {
+			for _, k := range []string{"p384-c", "p521-a", "rsa3072-a", "rsa4096-a"} {
+				media, k := media, k
+				out = append(out, mc.Scenario{Name: fmt.Sprintf("C15-%s-%s-%s-valid-authorities-only", mediaShort(media), envenc.SchemeX509, kindOf(k)), Bound: -1,
+					Body:   func(c *mc.Ctx) { c15BodyN(c, media, envenc.SchemeX509, k, 2) },
+					Params: map[string]string{"format": media, "scheme": envenc.SchemeX509, "key": k, "behaviours": "the two valid authorities"}})
+			}
+		}
+	}
 	return out
 }
 
@@ -289,14 +300,17 @@ func c15Prime(w *tsaWorld, media, keyName string) {
 	}
 }
 
-func c15Body(c *mc.Ctx, media, scheme, keyName string) {
+func c15Body(c *mc.Ctx, media, scheme, keyName string) { c15BodyN(c, media, scheme, keyName, len(c15Behaviours)) }
+
+// c15BodyN restricts the authority's behaviour to the first nBehaviours of the alphabet.
+func c15BodyN(c *mc.Ctx, media, scheme, keyName string, nBehaviours int) {
 	w := tsaGetWorld()
 	c15Prime(w, media, keyName)
 	useTS := c.ChooseFree("timestamper", 2) == 0 // 0 = set, 1 = nil
 	derive := c.ChooseFree("request-derived-with-WithContext", 2) == 1
 	bi := 0
 	if useTS && scheme == envenc.SchemeX509 {
-		bi = c.ChooseFree("tsa-behaviour", len(c15Behaviours))
+		bi = c.ChooseFree("tsa-behaviour", nBehaviours)
 	}
 	b := &c15Behaviours[bi]
 	// revocation validator: 0 none, 1 vector, 2 error, 3 wrong length, 4 empty
